@@ -74,6 +74,7 @@ pub fn case(seed: u64, lane: Lane, trace: bool) -> CaseOut {
     h.policy = *r.pick(&[IncomingPolicy::Accept, IncomingPolicy::Accept, IncomingPolicy::RetryFirst]);
     let ending = *r.pick(&[Ending::CloseClient, Ending::CloseServer, Ending::CloseBoth, Ending::VanishClient, Ending::VanishServer, Ending::IdleBoth]);
     let mut w = h.build();
+    w.mon.log_transmits = true;
     if trace {
         w.trace = Some(vec![]);
     }
@@ -98,6 +99,14 @@ pub fn case(seed: u64, lane: Lane, trace: bool) -> CaseOut {
     let stop_faults_at_close = r.chance(70);
     if stop_faults_at_close {
         w.netcfg.fault_until_ns = w.netcfg.fault_until_ns.min(w.now);
+    }
+    // the datagram(s) announcing the close are lost, then the path delivers again: the closer
+    // must repeat the announcement when the peer's packets keep arriving
+    let lose_first_close = stop_faults_at_close && matches!(ending, Ending::CloseClient | Ending::CloseServer) && r.chance(30);
+    if lose_first_close {
+        let dir = if ending == Ending::CloseClient { 0 } else { 1 };
+        let next = w.net.dir_count[dir];
+        w.netcfg.drop_idx[dir].insert(next);
     }
     match ending {
         Ending::CloseClient => w.apply_op(Op::Close { ep: 1, code, reason: reason.clone() }),
@@ -168,7 +177,36 @@ pub fn case(seed: u64, lane: Lane, trace: bool) -> CaseOut {
             }
             // (3) the peer of a local close learns the closer's code and reason (delivering path)
             if let (Some(pc), false, true) = (peer_closed_at, closed_locally, delivering) {
-                if ending != Ending::CloseBoth {
+                // when the first announcement was dropped on purpose, the peer can only learn of
+                // the close if one of its own packets reached the closer while it was still closing
+                let closer_mon = w.eps[peer_ep].conns.iter().find(|(_, p)| p.pair == c.pair).and_then(|(pch, _)| w.mon.conns.get(&(peer_ep, *pch)));
+                let closer_drained = closer_mon.and_then(|m| m.drained_ns);
+                // (packets the closer can no longer decrypt - e.g. Handshake packets after it dropped
+                // those keys - do not make it speak again)
+                let closer_frames_now = w.eps[peer_ep].conns.values().find(|p| p.pair == c.pair).map(|p| crate::mon::frame_rx_total(&p.c.stats().frame_rx));
+                let closer_heard = match (closer_mon.and_then(|m| m.frames_rx_at_close), closer_frames_now) {
+                    (Some(a), Some(b)) => b > a,
+                    _ => false,
+                };
+                let rtt_slack = 2 * (w.netcfg.latency_ns + w.netcfg.jitter_ns) + w.drv.timer_late_ns + 2_000_000;
+                let spoke_in_time = cm.map_or(false, |m| {
+                    m.tx_log.iter().any(|&(t, _, _)| {
+                        t > pc + w.netcfg.latency_ns
+                            && closer_drained.map_or(false, |d| t + w.netcfg.latency_ns + w.netcfg.jitter_ns + 1_000_000 < d)
+                            // ... and it was still there when the repeated announcement came back
+                            && m.lost_ns.map_or(true, |l| l > t + rtt_slack)
+                    })
+                });
+                if lose_first_close {
+                    if std::env::var("QV_C08_DEBUG").is_ok() {
+                        eprintln!("C08DBG seed={seed} me={me} pc={pc} spoke={spoke_in_time} heard={closer_heard} closer_drained={closer_drained:?} closer_frames={:?} tx_after={:?} lost_ns={:?}", (closer_mon.and_then(|m| m.frames_rx_at_close), closer_frames_now), cm.map(|m| m.tx_log.iter().filter(|x| x.0 > pc).map(|x| x.0).take(4).collect::<Vec<_>>()), cm.and_then(|m| m.lost_ns));
+                    }
+                    cnt.inc("c08.first_close_lost");
+                    if spoke_in_time && closer_heard {
+                        cnt.inc("c08.first_close_lost_peer_spoke");
+                    }
+                }
+                if ending != Ending::CloseBoth && (!lose_first_close || (spoke_in_time && closer_heard)) {
                     cnt.inc("c08.peer_reason_checks");
                     let peer_cm = w.eps[peer_ep].conns.iter().find(|(_, p)| p.pair == c.pair).and_then(|(pch, _)| w.mon.conns.get(&(peer_ep, *pch)));
                     // a side that had already lost the connection (e.g. tiny idle timeout) before the
